@@ -97,6 +97,25 @@ def _nested_subs(var: myokit.Variable) -> dict[sp.Symbol, sp.Symbol]:
     return subs
 
 
+def _to_sympy(expression: myokit.Expression, *substitutions: dict) -> sp.Expr:
+    """The sympy expression of a Myokit expression with the names substituted.
+    The operations are kept as they are written (not evaluated), unless sympy cannot
+    build the expression that way: an if whose condition compares an if ends in a
+    RecursionError inside an unevaluated Piecewise"""
+
+    def build():
+        expr = myokit.formats.sympy.write(expression)
+        for substitution in substitutions:
+            expr = expr.xreplace(substitution)
+        return expr
+
+    try:
+        with sp.core.parameters.evaluate(False):
+            return build()
+    except RecursionError:
+        return build()
+
+
 def mmt_to_gotran(filename: str | Path) -> ODE:
     """Convert a myokit model to gotran ODE
 
@@ -165,11 +184,12 @@ def myokit_to_gotran(model: myokit.Model, protocol=None) -> ODE:
                     description=var.meta.get("desc", ""),
                 )
                 states.append(state)
-                with sp.core.parameters.evaluate(False):
-                    expr = myokit.formats.sympy.write(var.eq().rhs)
-                    expr = expr.xreplace(_nested_subs(var))
-                    expr = expr.xreplace(component_subs.get(component.name(), {}))
-                    expr = expr.xreplace(all_subs)
+                expr = _to_sympy(
+                    var.eq().rhs,
+                    _nested_subs(var),
+                    component_subs.get(component.name(), {}),
+                    all_subs,
+                )
 
                 state_der = atoms.StateDerivative(
                     name=f"d{name}_dt",
@@ -183,8 +203,7 @@ def myokit_to_gotran(model: myokit.Model, protocol=None) -> ODE:
                 derivatives.append(state_der)
 
             else:
-                with sp.core.parameters.evaluate(False):
-                    expr = myokit.formats.sympy.write(var.rhs())
+                expr = _to_sympy(var.rhs())
                 if expr.is_Number:
                     parameter = atoms.Parameter(
                         name=name,
@@ -196,10 +215,12 @@ def myokit_to_gotran(model: myokit.Model, protocol=None) -> ODE:
                     parameters.append(parameter)
 
                 else:
-                    with sp.core.parameters.evaluate(False):
-                        expr = expr.xreplace(_nested_subs(var))
-                        expr = expr.xreplace(component_subs.get(component.name(), {}))
-                        expr = expr.xreplace(all_subs)
+                    expr = _to_sympy(
+                        var.rhs(),
+                        _nested_subs(var),
+                        component_subs.get(component.name(), {}),
+                        all_subs,
+                    )
 
                     intermediate = atoms.Intermediate(
                         name=name,
